@@ -44,6 +44,9 @@ func checkC04(c *Ctx) {
 	c.Decides("HASH-AFTER-CLEAR: every caller of ClearBitSets (which zeroes the branch hash codes too) recomputes the hashes afterwards")
 	c.hashAfterClear("HASH-AFTER-CLEAR")
 	c.Floor("HASH-AFTER-CLEAR", 2)
+	c.Decides("RANK-ALWAYS (go/cfg): UpdateTipIndex reports success only after the loop that stores each tip's rank has been entered (no 'map already in sync' shortcut)")
+	c.rankAlways("RANK-ALWAYS", c.Func("tree", "Tree", "UpdateTipIndex"), "bit positions are the ranks of the tips in the sorted name list")
+	c.Floor("RANK-ALWAYS", 1)
 	c.Decides("REINDEX-LAST (go/cfg): the eleven operations of package tree that edit the structure and refresh the derived data themselves (RerootOutGroup, RerootMidPoint, RemoveTips, Reroot, Resolve, ResolveNamedInternalNodes, RemoveSingleNodes, RemoveEdges, UnRoot, SubTree, Merge) pass a call reaching UpdateBitSet on every path from each of their structural edits to a successful exit")
 	c.reindexLast("REINDEX-LAST", reindexLastFuncs, "every branch's recorded split (tip counts on both sides) equals the split obtained by cutting that branch", false)
 	for _, nm := range reindexLastFuncs {
